@@ -278,6 +278,6 @@ def run(chk, prog):
     # ---- R6: nothing the next step uses survives outside the phase space ---------------------------------------------------------------------------
     # a continued run rebuilds every map from the loaded grid; it equals the uninterrupted run only if the uninterrupted run's maps hold nothing
     # else: the wake map's offsets are, after every update(), the field's potential for the current grid (copied unconditionally: C05 R3)
-    reeval(chk, prog, "C05", lambda i: i["rule"] == "R3" and "copied without arithmetic" in i["what"], "R6", "R6-wake-map-holds-no-history", 1)
+    reeval(chk, prog, "C05", lambda i: i["rule"] == "R3" and ("copied without arithmetic" in i["what"] or "rebuilt on every path" in i["what"]), "R6", "R6-wake-map-holds-no-history", 2)
     chk.notes.append("C11: record selection and guarded read, refresh before the first step for every start kind, block agreement, refusal discipline. "
                      "NOT decided: numerical equality of a split run and an uninterrupted run.")
